@@ -419,7 +419,7 @@ def make_block_contracts(cls):
                 g = vsub([a + b_ + c for a, b_, c in zip(mv(BS.L, knot(i, d)), mv(BS.D, knot(i + 1, d)), mv(BS.U, knot(i + 2, d)))], BS.rhs)
                 return g
             for d in DS:
-                S.ensures(S.forall(0, nb, lambda i, d=d: [g.eq(0) for g in kkt_rows(i, d)], inst=[]),
+                S.ensures(S.forall(0, nb, lambda i, d=d: [g.eq(0) for g in kkt_rows(i, d)], inst=[S.sk(0), S.sk(0) - 1]),
                           'optimality_conditions_at_interior_knots_%d' % d)
             # ---- cached factor relations (also what the gradient proofs use)
             Lm = lambda i: mat_of(Lc, i, b)
@@ -460,6 +460,15 @@ def make_block_contracts(cls):
                 if last is None:
                     return [sv(i, d)[r].eq(ite(i.eq(nb - 1), lastv[r], full[r])) for r in range(b)]
                 return [sv(i, d)[r].eq(lastv[r] if last else full[r]) for r in range(b)]
+            def pivot_steps(L, case):
+                # calc steps inside the iteration: the local D holds the eliminated pivot D~; the cached block is its inverse
+                i = L.i
+                BS = BlockSpec(S, cls, i, DS[0])
+                Dloc = [[L.D.at(r, c) for c in range(b)] for r in range(b)]
+                Dt = BS.D if case == 'first' else msub(BS.D, mm(Lm(i), mm(Dm(i - 1), Um(i - 1))))
+                out = [x.eq(y) for x, y in zip(flat(Dloc), flat(Dt))]
+                out += meq(mm(Dloc, Dm(i)), ident(b))
+                return out
             sizes = lambda: conj([Lc.R.eq(nb), Uc.R.eq(nb), Dinv.R.eq(nb), rhs.R.eq(nb * b)] + [X.R.eq(n_pts) for X in Xout])
             boundary_rows = lambda: conj([X.at(0, d).eq(Bl(d)[j]) for j, X in enumerate(Xout) for d in range(D)] +
                                          [X.at(n_pts - 1, d).eq(Br(d)[j]) for j, X in enumerate(Xout) for d in range(D)])
@@ -470,6 +479,8 @@ def make_block_contracts(cls):
                    local=dict(pre=lambda L: [('pd', conj([pdv.at(L.i, d).eq(P.at(L.i + 1, d) - P.at(L.i, d)) & pdv.at(L.i + 1, d).eq(P.at(L.i + 2, d) - P.at(L.i + 1, d)) for d in DS])),
                                              ('k', (L.i >= 0) & (L.i < nb) & L.n.eq(n_pts) & L.num_blocks.eq(nb)),
                                              ('boundary_blocks', conj([L.B_left.at(j, d).eq(Bl(d)[j]) & L.B_right.at(j, d).eq(Br(d)[j]) for j in range(b) for d in range(D)]))],
+                              cases=[('first', lambda L: L.i.eq(0)), ('later', lambda L: L.i > 0)],
+                              steps=lambda L, case: [('pivot_%d' % j, x) for j, x in enumerate(pivot_steps(L, case))],
                               post=lambda L: [('fwd_%d' % j, x) for j, x in enumerate([x for d in DS for x in fwd_facts(L.i, d)])]))
             S.loop(1, inv=lambda L: [('range', (L.i >= -1) & (L.i <= nb - 2)), ('sizes', sizes() & sol.R.eq(nb * b)),
                                      ('factorised', S.forall(0, nb, lambda k: [x for d in DS for x in fwd_facts(k, d)], inst=SK)),
@@ -549,15 +560,39 @@ def make_block_contracts(cls):
                 for k in range(1, s):
                     S.ensures(X[k].at(0, d).eq(bc.fields['start_' + BC_FIELDS[k - 1]].at(d, 0)), 'start_%s_%d' % (BC_FIELDS[k - 1], d))
                     S.ensures(X[k].at(n, d).eq(bc.fields['end_' + BC_FIELDS[k - 1]].at(d, 0)), 'end_%s_%d' % (BC_FIELDS[k - 1], d))
+            def herm(Cm, i, d):
+                # the segment's coefficients are the first-principles Hermite coefficients (polynomial in the inverse duration)
+                hc = hermite_coeffs(s, iv_pow_of(S, i), [X[k].at(i, d) for k in range(s)], [X[k].at(E.const(i) + 1, d) for k in range(s)])
+                return [Cm.at(E.const(i) * nc + m, d).eq(hc[m]) for m in range(nc)]
+            for d in DS:
+                S.ensures(S.forall(0, n, lambda i, d=d: herm(C, i, d)), 'hermite_coefficients_%d' % d)
+                for k in range(s, 2 * s - 1):
+                    S.ensures(S.forall(1, n, lambda m, k=k, d=d: der(C, nc, m, k, 0, d).eq(der(C, nc, m - 1, k, hfun(m - 1), d))), 'continuous_derivative_%d_%d' % (k, d))
+            if S.mode == 'verify':
+                def high_order_continuity(G):
+                    m = S.sk(0)
+                    inr = (m >= 1) & (m < n)
+                    KN = lambda kk, d: [X[j].at(kk, d) for j in range(1, s)]
+                    for d in DS:
+                        BS = BlockSpec(S, cls, m - 1, d)
+                        rows = vsub([a + b_ + c for a, b_, c in zip(mv(BS.L, KN(m - 1, d)), mv(BS.D, KN(m, d)), mv(BS.U, KN(m + 1, d)))], BS.rhs)
+                        hyps = [implies(inr, x) for x in herm(C, m - 1, d) + herm(C, m, d)]
+                        hyps += [implies(inr, x) for x in tp_ok(S, m - 1, cls)]
+                        hyps += [implies(inr, r.eq(0)) for r in rows]
+                        G.abstract_lemma('high_order_continuity_%d' % d, hyps,
+                                         [implies(inr, der(C, nc, m, k, 0, d).eq(der(C, nc, m - 1, k, hfun(m - 1), d))) for k in range(s, 2 * s - 1)])
+                S.ghost('exit', high_order_continuity)
             S.loop(0, inv=lambda L: [
                 ('range', (L.i >= 0) & (L.i <= n)),
                 ('rows', L.coeffs.R.eq(nc * n)),
-            ] + [('left_%d_%d' % (k, d), S.forall(0, L.i, lambda i, k=k, d=d: der(L.coeffs, nc, i, k, 0, d).eq(X[k].at(i, d)))) for k in range(s) for d in DS]
+            ] + [('hermite_%d' % d, S.forall(0, L.i, lambda i, d=d: herm(L.coeffs, i, d))) for d in DS]
+              + [('left_%d_%d' % (k, d), S.forall(0, L.i, lambda i, k=k, d=d: der(L.coeffs, nc, i, k, 0, d).eq(X[k].at(i, d)))) for k in range(s) for d in DS]
               + [('right_%d_%d' % (k, d), S.forall(0, L.i, lambda i, k=k, d=d: der(L.coeffs, nc, i, k, hfun(i), d).eq(X[k].at(i + 1, d)))) for k in range(s) for d in DS],
                 variant=lambda L: n - L.i, terms=lambda L: [L.i],
                 local=dict(
                     pre=lambda L: [('tp', conj(tp_ok(S, L.i, cls)))] + [('pd_%d' % d, S.v('point_diffs_').at(L.i, d).eq(P.at(L.i + 1, d) - P.at(L.i, d))) for d in DS],
-                    post=lambda L: [('left_%d_%d' % (k, d), der(L.coeffs, nc, L.i, k, 0, d).eq(X[k].at(L.i, d))) for k in range(s) for d in DS]
+                    post=lambda L: [('hermite_%d_%d' % (d, j), x) for d in DS for j, x in enumerate(herm(L.coeffs, L.i, d))]
+                                 + [('left_%d_%d' % (k, d), der(L.coeffs, nc, L.i, k, 0, d).eq(X[k].at(L.i, d))) for k in range(s) for d in DS]
                                  + [('right_%d_%d' % (k, d), der(L.coeffs, nc, L.i, k, hfun(L.i), d).eq(X[k].at(L.i + 1, d))) for k in range(s) for d in DS]))
 
 
